@@ -302,21 +302,35 @@ def classify_scc(ctx, crate, cg, comp):
             if res.startswith("std::collections::HashSet::<T, S>::insert") or res.startswith("std::collections::HashSet::<T, S, A>::insert"):
                 if _refers_to(f, c["args"][0], v):
                     insert_bb = bb
-        if contains_bb is None or insert_bb is None:
+        if insert_bb is None:
             continue
         dom = f.dominators()
         rec_calls = [bb for bb, t, _v in cg.callees(fid) if t in comp_set]
-        if not all(insert_bb in dom.get(bb, set()) and contains_bb in dom.get(bb, set()) for bb in rec_calls):
-            continue
-        # the contains() result must branch: one side returns without reaching the insert
-        tgt = f.blocks[contains_bb]["t"][1]["target"]
-        sw = f.blocks[tgt]["t"] if tgt is not None else None
-        if not sw or sw[0] != "switch":
-            continue
-        succs = f.succs(tgt)
-        reach_insert = [s for s in succs if _reaches(f, s, insert_bb)]
-        if len(reach_insert) == len(succs):
-            continue  # both sides go on to insert -> the test does not cut the recursion
+        if contains_bb is None:
+            # `if !visited.insert(k) { return .. }`: the insert is the test -- its bool result must branch, and one side must
+            # leave without reaching any in-SCC call
+            if not all(insert_bb in dom.get(bb, set()) for bb in rec_calls):
+                continue
+            tgt = f.blocks[insert_bb]["t"][1]["target"]
+            sw = f.blocks[tgt]["t"] if tgt is not None else None
+            if not sw or sw[0] != "switch" or op_local(sw[1]) != place_local(f.blocks[insert_bb]["t"][1]["dest"]):
+                continue
+            succs = f.succs(tgt)
+            cut = [s2 for s2 in succs if not any(_reaches(f, s2, rb) for rb in rec_calls)]
+            if not cut:
+                continue
+        else:
+            if not all(insert_bb in dom.get(bb, set()) and contains_bb in dom.get(bb, set()) for bb in rec_calls):
+                continue
+            # the contains() result must branch: one side returns without reaching the insert
+            tgt = f.blocks[contains_bb]["t"][1]["target"]
+            sw = f.blocks[tgt]["t"] if tgt is not None else None
+            if not sw or sw[0] != "switch":
+                continue
+            succs = f.succs(tgt)
+            reach_insert = [s for s in succs if _reaches(f, s, insert_bb)]
+            if len(reach_insert) == len(succs):
+                continue  # both sides go on to insert -> the test does not cut the recursion
         # every in-SCC call into a function with a visited-set parameter must forward the caller's own set:
         # a fresh set on one recursive edge makes the guard forget the path
         fresh = []
